@@ -157,7 +157,16 @@ fn build_and_drain(
             .collect();
         let has_w = w.is_some();
         if let Some(mut w) = w {
-            w.write_all(payload).unwrap();
+            // payload == [] means "never write"; a single 0 byte means "only an empty write";
+            // a single 1 byte means "only a flush"
+            match payload {
+                [] => {}
+                [0] => {
+                    let _ = w.write(&[]).unwrap();
+                }
+                [1] => w.flush().unwrap(),
+                p => w.write_all(p).unwrap(),
+            }
             drop(w);
         }
         let recs = drive_to_end(resp.into_body(), 100_000);
@@ -220,7 +229,16 @@ pub fn c17(em: &mut Emit, thorough: bool, seed: u64) {
                         chunk,
                         level
                     );
-                    match build_and_drain(&r, chunk, level, &payload) {
+                    // what the handler does with the writer: rotate through the patterns
+                    let pattern = (level as usize + mi + as_parts as usize) % 5;
+                    let (arg, expect): (&[u8], &[u8]) = match pattern {
+                        0 => (&[], &[]),
+                        1 => (&[0], &[]),
+                        2 => (&[1], &[]),
+                        _ => (&payload, &payload),
+                    };
+                    let payload: &[u8] = expect;
+                    match build_and_drain(&r, chunk, level, arg) {
                         Err(()) => em.case(&line, "PANIC", "FAIL:panic", "panic"),
                         Ok((vary, ce, has_w, body)) => {
                             let ce_gzip = ce == vec![b"gzip".to_vec()];
